@@ -130,7 +130,14 @@ impl Case17 {
                             }
                         } else {
                             match (&m1[h], &m2[h], &m3[h]) {
-                                (Some(a), Some(b), Some(c)) if a.len() > i && b.len() > i && c.len() > i => close(v3[i], want, self.alpha.abs() * a[i] + self.beta.abs() * b[i] + c[i], false),
+                                (Some(a), Some(b), Some(c)) if a.len() > i && b.len() > i && c.len() > i => {
+                                    // (a magnitude that overflowed makes 0 * inf = NaN: no tolerance to compare with)
+                                    let mag = self.alpha.abs() * a[i] + self.beta.abs() * b[i] + c[i];
+                                    if !mag.is_finite() || !a[i].is_finite() || !b[i].is_finite() || !c[i].is_finite() {
+                                        return e("discard", UNDECIDABLE.to_string());
+                                    }
+                                    close(v3[i], want, mag, false)
+                                }
                                 _ => true,
                             }
                         };
